@@ -132,39 +132,37 @@ def run(c):
 
         # 4. direction B: the recorded random run validated by TLC against SlotTrace.tla
         # (always: a violation found above concerns other inputs than the random run)
-        if True:
-            lines = [l for l in open(tracepath) if l.strip()]
-            if len(lines) < 1000:
-                raise vlib.Infra("random run too short: %d events" % len(lines))
-            ok, matched, total, tres = vlib.validate_trace(SPEC_DIR, "SlotTrace", "SlotTrace.cfg", c.work, tracepath, timeout=2400)
-            c.add_tlc(tres, "trace validation of the recorded random run (SlotTrace)")
-            if not ok:
-                ev = lines[matched] if matched < len(lines) else ""
-                sig = {"kind": "trace-rejected"}
-                try:
-                    e = json.loads(ev)
-                    if e.get("ev") == "Submit":
-                        m = e["r"]["mut"]
-                        sig["mutation"] = m["kind"] if m["kind"] != "field" else m["f"]
-                except Exception:
-                    pass
-                c.violation(sig, {"event_index": matched, "event": ev, "context": lines[max(0, matched - 6):matched]},
-                            "SlotTrace rejects the recorded execution at event %d of %d (the real verdicts differ from Slot.tla): %s" % (matched, total, ev[:400]))
-            else:
-                c.traces_validated = sum(1 for l in lines if '"Config"' in l)
-                # binding self-test: one flipped verdict must be rejected
-                idx = [i for i, l in enumerate(lines) if '"Submit"' in l]
-                i = idx[rng.randrange(len(idx))]
-                e = json.loads(lines[i])
-                k = rng.choice(["ts", "sig", "bp"])
-                e["res"][k] = not e["res"][k]
-                lines[i] = json.dumps(e) + "\n"
-                bad = os.path.join(c.work, "producer_trace_bad.ndjson")
-                open(bad, "w").writelines(lines)
-                ok2, m2, _t2, _ = vlib.validate_trace(SPEC_DIR, "SlotTrace", "SlotTrace.cfg", c.work, bad, timeout=2400)
-                if ok2 or m2 != i:
-                    raise vlib.Infra("binding self-test failed: trace with verdict %s of event %d flipped: accepted=%s, stopped at %d" % (k, i, ok2, m2))
-                c.notes.append("self-test: flipped verdict '%s' of event %d rejected" % (k, i))
+        lines = [l for l in open(tracepath) if l.strip()]
+        if len(lines) < 1000:
+            raise vlib.Infra("random run too short: %d events" % len(lines))
+        ok, matched, total, tres = vlib.validate_trace(SPEC_DIR, "SlotTrace", "SlotTrace.cfg", c.work, tracepath, timeout=2400)
+        c.add_tlc(tres, "trace validation of the recorded random run (SlotTrace)")
+        if not ok:
+            ev = lines[matched] if matched < len(lines) else ""
+            sig = {"kind": "trace-rejected"}
+            try:
+                e = json.loads(ev)
+                if e.get("ev") == "Submit":
+                    m = e["r"]["mut"]
+                    sig["mutation"] = m["kind"] if m["kind"] != "field" else m["f"]
+            except Exception:
+                pass
+            c.violation(sig, {"event_index": matched, "event": ev, "context": lines[max(0, matched - 6):matched], "seed": c.seed},
+                        "SlotTrace rejects the recorded execution at event %d of %d (the real verdicts differ from Slot.tla): %s" % (matched, total, ev[:400]))
+        else:
+            c.traces_validated = sum(1 for l in lines if '"Config"' in l)
+            # binding self-test: one flipped verdict must be rejected, exactly there (a prefix of the trace is enough)
+            idx = [i for i, l in enumerate(lines[:800]) if '"Submit"' in l]
+            i = idx[rng.randrange(len(idx))]
+            e = json.loads(lines[i])
+            k = rng.choice(["ts", "sig", "bp"])
+            e["res"][k] = not e["res"][k]
+            bad = os.path.join(c.work, "producer_trace_bad.ndjson")
+            open(bad, "w").writelines(lines[:i] + [json.dumps(e) + "\n"] + lines[i + 1:i + 4])
+            ok2, m2, _t2, _ = vlib.validate_trace(SPEC_DIR, "SlotTrace", "SlotTrace.cfg", c.work, bad, timeout=2400)
+            if ok2 or m2 != i:
+                raise vlib.Infra("binding self-test failed: trace with verdict %s of event %d flipped: accepted=%s, stopped at %d" % (k, i, ok2, m2))
+            c.notes.append("self-test: flipped verdict '%s' of event %d rejected" % (k, i))
     finally:
         for t in th:
             t.join()
